@@ -1297,7 +1297,9 @@ func (f *Field) importValue(columnIDs []uint64, values []int64, options *ImportO
 			baseValues[i] = value - bsig.Base
 		}
 
-		if err := frag.importValue(data.ColumnIDs, baseValues, requiredDepth, options.Clear); err != nil {
+		// Write the field's full bit depth, not just the depth this batch
+		// needs, so that higher bits of a previously larger value are cleared.
+		if err := frag.importValue(data.ColumnIDs, baseValues, bsig.BitDepth, options.Clear); err != nil {
 			return err
 		}
 	}
